@@ -68,6 +68,8 @@ def generate(ctx):
                 arr_live[j1] = {nm: [gen.gen_value(rng, t, 0.2) for _ in range(k0)] for nm, t in schema} if k0 else None
                 rows = fo.rows_rm(nf["n"].array.chunked_array)
             kind = ["on_nested", "subset", "both", "subset", "on_nested", "base", "base_subset", "conflict", "two_layers", "unknown_layer"][i % 10]
+            if i % 23 == 7:
+                kind = "bad_args"       # a nested target and an argument error: refused, and the (in-place) target is exactly as before
             how = rng.choice(["any", "all", None, None])
             thresh = rng.choice([0, 1, 2, len(names), len(names) + 1]) if (how is None and rng.random() < 0.5) else None
             sub = rng.sample(names, rng.randint(1, min(3, len(names)))) if kind in ("subset", "both") or (kind == "on_nested" and rng.random() < 0.0) else None
@@ -89,9 +91,20 @@ def generate(ctx):
                 kw["subset"] = [f"n.{f}" for f in sub]
             elif kind == "base_subset":
                 kw["subset"] = rng.choice([["w"], ["w", "n"], ["n"], "n", ["other", "w"]])
+            elif kind == "conflict" and i % 20 >= 10:
+                # two nests holding the SAME field names: on_nested names one, the subset path the other
+                nf["m"] = pd.Series(nf["n"].array.copy(), index=nf.index, name="m")
+                kw["on_nested"] = "n"
+                kw["subset"] = [f"m.{names[0]}"]
             elif kind == "conflict":
                 kw["on_nested"] = "other"
                 kw["subset"] = [f"n.{names[0]}"]
+            elif kind == "bad_args":
+                kw.pop("how", None)
+                kw.pop("thresh", None)
+                kw.update(rng.choice([{"on_nested": "n", "how": "any", "thresh": 1}, {"subset": [f"n.{names[0]}", "n.no_such_field"]},
+                                      {"on_nested": "n", "how": "sometimes"}, {"on_nested": "n", "axis": 3}]))
+                inplace = True
             elif kind == "two_layers":
                 kw["subset"] = rng.choice([[f"n.{names[0]}", "other.q"], [f"n.{names[0]}", "w"]])
             elif kind == "unknown_layer":
@@ -102,14 +115,19 @@ def generate(ctx):
             before = fo.snapshot(nf, skip=("n",))
             whole = fo.snapshot(nf)
 
+            tgt = [None]
+
             def run():
                 target = nf.copy() if inplace else nf
+                tgt[0] = target
                 out = target.dropna(inplace=inplace, **kw)
                 out = target if inplace else out
                 assert isinstance(out, NestedFrame), "not a NestedFrame"
                 return out
             res = attempt(run)
             unchanged = fo.snapshot(nf) == whole
+            if res[0] == "err" and inplace and tgt[0] is not None:
+                unchanged = unchanged and fo.snapshot(tgt[0]) == whole       # a refused in-place call leaves its target as it was
             how_t = {"any": "HowAny", "all": "HowAll", None: "HowAny"}[how] if thresh is None else f"(HowThresh {thresh})"
             nontrivial = False
             if kind in ("on_nested", "subset", "both"):
@@ -160,7 +178,7 @@ def generate(ctx):
                 if "." not in path:
                     return "(Some LBase)"
                 head = path.split(".")[0]
-                return {"n": "(Some (LNest 1))", "other": "(Some (LNest 2))"}.get(head, "None")
+                return {"n": "(Some (LNest 1))", "other": "(Some (LNest 2))", "m": "(Some (LNest 3))"}.get(head, "None")
             on_v = kw.get("on_nested", False)
             on_t = "None" if not on_v else {"n": "(Some (Some 1))", "other": "(Some (Some 2))"}.get(on_v, "(Some None)")
             sub_v = kw.get("subset")
@@ -169,7 +187,8 @@ def generate(ctx):
                 obs_t = "Err"
             else:
                 obs_t = "(Ok (LNest 1))" if kind in ("on_nested", "subset", "both") else "(Ok LBase)"
-            term = (f"(match {term} with [a; b; c; s] => [a && res_layer_eqb (m_dropna_target {on_t} {sub_t}) {obs_t}; b; c; s] | l => l end)")
+            if kind != "bad_args":
+                term = (f"(match {term} with [a; b; c; s] => [a && res_layer_eqb (m_dropna_target {on_t} {sub_t}) {obs_t}; b; c; s] | l => l end)")
             cases.append({
                 "stream": "dropna", "op": "dropna_" + kind, "term": term,
                 "input": dict(ao.input_repr(inp), labels=[repr(x) for x in labels], kwargs={k: repr(v) for k, v in kw.items()}, inplace=inplace),
